@@ -5,9 +5,11 @@ from .spanbase import SpanProp, case_fields, parse_pos, Units, CLASSES, opt, fmt
 ALPHA = ['a', 'b', 'sp', 'TAB', 'CR', 'LF', 'e2', 'w3', 'z3', 'w4', 'z2']
 SMALL = ['a', 'TAB', 'CR', 'LF', 'e2', 'w3', 'z2']
 PATS1 = [[], ['a'], ['TAB'], ['CR'], ['LF'], ['e2'], ['w3'], ['CR', 'LF'], ['a', 'a'], ['a', 'TAB'],
-         ['LF', 'a'], ['e2', 'a'], ['a', 'CR'], ['z2'], ['w3', 'z2'], ['a', 'b', 'a'], ['CR', 'LF', 'a']]
+         ['LF', 'a'], ['e2', 'a'], ['a', 'CR'], ['z2'], ['w3', 'z2'], ['a', 'b', 'a'], ['CR', 'LF', 'a'],
+         ['LF', 'CR'], ['LF', 'TAB'], ['TAB', 'a'], ['TAB', 'TAB'], ['CR', 'LF', 'TAB']]
+PATS2 = [['sp'], ['z3'], ['w4'], ['z3', 'a'], ['a', 'w4'], ['sp', 'TAB']]
 
-def split2(v):
+def split2_zero(v):
     """'X=' -> (X, X) ; 'X!Y' -> (X, Y); bare -> (X, None)"""
     if v.endswith('='):
         return v[:-1], v[:-1]
@@ -20,11 +22,12 @@ class C19(SpanProp):
     id = 'C19'
     files = ['tephra-span/src/metrics.rs', 'tephra-span/src/source.rs']
     rule = ('exhaustive small texts over the 11-symbol alphabet x line endings x tab widths, plus seeded random texts up to '
-            '40 chars; per text every canonical base through every navigation function of ColumnMetrics and of the '
+            '40 chars (a third with line breaks placed as units, a fifth as sources with a start position); per text every canonical base through every navigation function of ColumnMetrics and of the '
             'SourceText wrappers, every pattern of a fixed pattern set plus random patterns, seven character classes (two of them telling the CR and the LF of a CRLF ending apart); '
             'non-trivial = text with a tab, a wide/zero-width/multi-byte char or a line break and >= 3 positions; '
             'distinct by (text, metrics)')
     exhaustive = {'quick': False, 'thorough': False}
+    vary_order = False
     assumptions = ['bases are canonical positions (the property\'s quantifier); tab width >= 1']
 
     def cases(self, tier, rng):
@@ -40,7 +43,7 @@ class C19(SpanProp):
                     add(le, 4, t, PATS1)
             for le in ('lf', 'cr', 'crlf'):
                 for tab in (1, 2, 3, 5, 8, 9):
-                    for t in spangen.all_texts(['a', 'TAB', 'w3', 'LF' if le != 'cr' else 'CR'], 3):
+                    for t in spangen.all_texts(['a', 'TAB', 'w3', 'LF' if le != 'cr' else 'CR'] + (['CR'] if le == 'crlf' else []), 3):
                         if 'TAB' in t:
                             add(le, tab, t, PATS1[:6])
             nrand = 600
@@ -56,11 +59,28 @@ class C19(SpanProp):
                             add(le, tab, t, PATS1[:8])
             nrand = 6000
         r = rng.fork('C19')
+        lbs = {'lf': ['LF'], 'cr': ['CR'], 'crlf': ['CR', 'LF']}
         for i in range(nrand):
             le = r.choice(['lf', 'cr', 'crlf'])
             tab = 1 + r.below(9)
             t = spangen.random_text(r, ALPHA, 40)
-            pats = [spangen.random_text(r, ALPHA, 3) for _ in range(3)]
+            if i % 3 == 1:
+                # line breaks placed as units (a CRLF break is otherwise a 1-in-121 coincidence), tabs on several lines
+                t = []
+                for _ in range(1 + r.below(6)):
+                    t += spangen.random_text(r, ['a', 'b', 'sp', 'TAB', 'TAB', 'e2', 'w3', 'z3', 'w4', 'z2'] + (['CR', 'LF'] if r.chance(1, 3) else []), 5)
+                    if r.chance(5, 6): t += lbs[le]
+            if i % 5 == 2:
+                # a source with a start position (SourceText::with_start_position): the wrappers translate by the offset, the
+                # start column may stand off a tab stop; pattern and class advances included
+                t = t[:14]
+                off = (r.below(30), r.below(4), r.below(12))
+                n[0] += 1
+                pats = [spangen.random_text(r, ALPHA, 3) for _ in range(2)] + r.choice([PATS1[:9], PATS1[9:], PATS2])
+                out.append(spangen.span_case('c%d' % n[0], le, tab, t, ['nav', 'pat', 'cls'], pats,
+                                             ['alpha', 'space', 'any', 'nl', 'wide', 'cr', 'notlf'], off=off))
+                continue
+            pats = [spangen.random_text(r, ALPHA, 3) for _ in range(3)] + (PATS2 if i % 4 == 0 else [])
             # patterns that do match: substrings of the text
             if t:
                 s = r.below(len(t)); e = min(len(t), s + 1 + r.below(3))
@@ -74,10 +94,15 @@ class C19(SpanProp):
 
     def oracle(self, ct, it):
         c = case_fields(ct)
-        if c['off'] != (0, 0, 0):
-            return []
-        u = Units(c['text'], c['le'], c['tab'])
+        zero = c['off'] == (0, 0, 0)
+        u = Units(c['text'], c['le'], c['tab'], c['off'])
         fails = []
+        def split2(got):
+            # a source with a start position has no ColumnMetrics-level twin: the harness prints the SourceText result bare
+            # (and `.` for start_position / end_position, which C20 observes)
+            if zero:
+                return split2_zero(got)
+            return got, got
         for gi, g in enumerate(it[1:], 1):
             for ei, e in enumerate(g[1:], 1):
                 p = parse_pos(e[0])
@@ -91,6 +116,8 @@ class C19(SpanProp):
                     names = ['next_position', 'previous_position', 'is_line_break', 'line_end_position', 'line_start_position',
                              'previous_line_end_position', 'next_line_start_position', 'start_position', 'end_position']
                     for nm, want, got in zip(names, exp, e[1:]):
+                        if not zero and got == '.':
+                            continue
                         a, b = split2(got)
                         if a != want or (b is not None and b != want):
                             fails.append(((gi, ei), '%s at %s of %s: got %s, canonical %s' % (nm, e[0], ' '.join(c['text']), got, want)))
